@@ -79,7 +79,8 @@ Definition out_eqb (a b : out) : bool :=
 
 (* a case: the stack, the steps with the observed result of each, and the verdict of the harness's direct oracle
    (true = every observed result is what the contract prescribes, on the operations the contract speaks about) *)
-Record case := { c_stack : stack; c_steps : list (hop * out); c_conj : bool; c_oracle : bool }.
+(* [c_psteps]: a provider-level scenario (OpenStore / SetStoreConfig / ... ) run on the in-memory provider itself *)
+Record case := { c_stack : stack; c_steps : list (hop * out); c_psteps : list (pop * pout); c_conj : bool; c_oracle : bool }.
 
 (* the contract is silent where a store does not support "&&" (optional) : those steps are skipped by both oracles *)
 Definition in_contract (conj : bool) (o : op) : bool :=
@@ -105,9 +106,23 @@ Fixpoint spec_agrees (persist conj : bool) (a : store) (steps : list (hop * out)
       (negb (in_contract conj (Query q)) || out_eqb x (if sup then y else OErr)) && spec_agrees persist conj a1 r
   end.
 
+Definition pout_eqb (a b : pout) : bool :=
+  match a, b with
+  | PDone, PDone | PErr, PErr | PNoStore, PNoStore => true
+  | PCfg x, PCfg y | POpenSet x, POpenSet y => list_eqb N.eqb x y
+  | POut x, POut y => out_eqb x y
+  | _, _ => false
+  end.
+Fixpoint check_pmodel (pst : pstate -> pop -> pstate * pout) (p : pstate) (steps : list (pop * pout)) : bool :=
+  match steps with
+  | [] => true
+  | (o, x) :: r => let '(p1, y) := pst p o in pout_eqb x y && check_pmodel pst p1 r
+  end.
+
 Definition check_case (c : case) : bool :=
   check_model (prov_of (c_stack c)) (rewrap (c_stack c)) (init (prov_of (c_stack c))) (c_steps c)
-  && Bool.eqb (spec_agrees (persistent (c_stack c)) (c_conj c) [] (c_steps c)) (c_oracle c).
+  && check_pmodel mem_pstep [] (c_psteps c)
+  && Bool.eqb (spec_agrees (persistent (c_stack c)) (c_conj c) [] (c_steps c) && check_pmodel (pspec_step false) [] (c_psteps c)) (c_oracle c).
 
 Fixpoint mismatches_from (i : nat) (cs : list case) : list nat :=
   match cs with
